@@ -135,7 +135,7 @@ Print Assumptions C12_link_decision_table.
 (* the same through the public calls for a process being torn down (stat unreachable, all
    other entries gone): cwd() and exe() raise NoSuchProcess; AccessDenied when the probe is refused *)
 Theorem C12_gone_block : forall c denied esrch,
-  run_ops c None (gone_ops denied esrch) = spec_gone denied.
+  run_ops c st0 (gone_ops denied esrch) = spec_gone denied.
 Proof. exact gone_block. Qed.
 Print Assumptions C12_gone_block.
 
@@ -190,9 +190,39 @@ Print Assumptions C12_name_zombie.
 (* a zombie, whatever its name (15 bytes included, where name() consults cmdline()): name()
    is the kernel name; cmdline(), exe(), cwd() raise ZombieProcess *)
 Theorem C12_zombie_block : forall c comm esrch,
-  run_ops c None (zombie_ops (view_zombie comm esrch)) = spec_zombie comm.
+  run_ops c st0 (zombie_ops (view_zombie comm esrch)) = spec_zombie comm.
 Proof. exact zombie_block. Qed.
 Print Assumptions C12_zombie_block.
+
+(* ---- name(): histories on one object *)
+
+(* history independence, for ALL histories and any remembered state: in a sequence of
+   name() / repr() / as_dict(['name']) (= process_iter(['name'])) calls on one object, over
+   kernel views that change arbitrarily in between, the answer at step k is the answer a
+   fresh object gives to the view of step k alone *)
+Theorem C12_name_history_independent : forall c steps st,
+  forallb (fun s => name_family (snd s)) steps = true ->
+  run_ops c st steps = map (fun s => fst (do_op c st0 (fst s) (snd s))) steps.
+Proof. exact name_history_independent. Qed.
+Print Assumptions C12_name_history_independent.
+
+(* two histories ending in the same OS state give the same last answer *)
+Theorem C12_name_last_answer : forall c pre1 pre2 st1 st2 v o,
+  name_family o = true ->
+  forallb (fun s => name_family (snd s)) pre1 = true ->
+  forallb (fun s => name_family (snd s)) pre2 = true ->
+  last (run_ops c st1 (pre1 ++ [(v, o)])) RUnit = last (run_ops c st2 (pre2 ++ [(v, o)])) RUnit.
+Proof. exact name_last_answer. Qed.
+Print Assumptions C12_name_last_answer.
+
+(* every history of OS states (comm, command line or zombie) -- argv[0] rewritten to
+   another basename with the same 15-byte prefix, title overwritten, turned zombie, command
+   line emptied, and back -- : each answer is the name the CURRENT state demands *)
+Theorem C12_name_history_spec : forall h st,
+  forallb (fun so => wf_nstate (fst so) && name_family (snd so)) h = true ->
+  run_ops now st (map (fun so => (view_nstate (fst so), snd so)) h) = map spec_name_step h.
+Proof. exact name_history_spec. Qed.
+Print Assumptions C12_name_history_spec.
 
 (* ---- a block of calls *)
 
@@ -201,7 +231,7 @@ Print Assumptions C12_zombie_block.
    the implementation's returned list is not aliased with a cache is what the harness's
    history cases check against this statement) *)
 Theorem C12_history : forall r,
-  wf_proc r = true -> run_ops now None (hist_ops (view_proc r)) = spec_hist r.
+  wf_proc r = true -> run_ops now st0 (hist_ops (view_proc r)) = spec_hist r.
 Proof. exact history_now. Qed.
 Print Assumptions C12_history.
 
